@@ -389,6 +389,7 @@ pub struct State {
     buf: Result<ProguardCache<'static>, String>,
     buf_bytes: &'static [u8],
     pbuf: Result<proguard_pinned::ProguardCache<'static>, String>,
+    uuid_buf: Vec<u8>,
 }
 
 impl State {
@@ -402,6 +403,7 @@ impl State {
             buf: Err("ERR InvalidHeader".into()),
             buf_bytes: b"",
             pbuf: Err("ERR InvalidHeader".into()),
+            uuid_buf: Vec::with_capacity(1 << 16),
         }
     }
     fn written(&mut self) -> &'static [u8] {
@@ -660,7 +662,11 @@ impl State {
             ["FMT", _] => "ok".into(),
             ["UUID", h] => {
                 let Some(b) = unhex(h) else { return bad() };
-                hexs(ProguardMapping::new(&b).uuid().as_bytes())
+                // one reused buffer: equal-length inputs sit at the same address (an identifier must
+                // depend on the bytes, not on where they are)
+                self.uuid_buf.clear();
+                self.uuid_buf.extend_from_slice(&b);
+                hexs(ProguardMapping::new(&self.uuid_buf).uuid().as_bytes())
             }
             _ => bad(),
         }
